@@ -69,3 +69,26 @@
   __CPROVER_assigns()
 /* an owning rvalue optional gives its value up: the result holds it (the source may be pilfered) */
 #define XV_CONTRACT_w_take_val __CPROVER_requires(OBJ(o) && XV_BOOL_OK(o->m_flag)) __CPROVER_ensures(RV.m_value.v == __CPROVER_old(o->m_value.v) && RV.m_flag == __CPROVER_old(o->m_flag)) __CPROVER_assigns(o->m_value.moved_from)
+
+/* trait instantiations named explicitly (closure_type_t<S>, const_closure_type_t<S>) for S in {T&&, const T&&, T&, const T&}:
+   an rvalue source is owned (the closure's object is NOT the source), an lvalue source is aliased */
+#define XV_CONTRACT_w_trait_const_rv_aliases __CPROVER_requires(OBJ(x)) __CPROVER_ensures(RV == 0 && *x == __CPROVER_old(*x)) PURE
+#define XV_CONTRACT_w_trait_rv_aliases __CPROVER_requires(OBJ(x)) __CPROVER_ensures(RV == 0) PURE
+#define XV_CONTRACT_w_trait_const_lv_aliases __CPROVER_requires(OBJ(x)) __CPROVER_ensures(RV == 1 && *x == __CPROVER_old(*x)) PURE
+#define XV_CONTRACT_w_trait_lv_aliases __CPROVER_requires(OBJ(x)) __CPROVER_ensures(RV == 1 && *x == __CPROVER_old(*x)) PURE
+#define XV_CONTRACT_w_trait_clv_aliases __CPROVER_requires(OBJ(x)) __CPROVER_ensures(RV == 1 && *x == __CPROVER_old(*x)) PURE
+/* get() on an rvalue closure: an owning closure hands out an independent object (it outlives the temporary closure),
+   a reference closure hands out the referent */
+#define XV_CONTRACT_w_get_rv_owned_aliases __CPROVER_requires(OBJ(w)) __CPROVER_ensures(RV == 0) PURE
+#define XV_CONTRACT_w_get_rv_ref __CPROVER_requires(WREF(w)) __CPROVER_ensures(RV == w->m_wrappee) PURE
+/* xtl::value / xtl::has_value on optionals of references (temporary or not) designate the referents, no copy */
+#define XV_CONTRACT_w_val_rv __CPROVER_requires(OBJ(x) && OBJ(f)) __CPROVER_ensures(RV == x && *x == __CPROVER_old(*x)) PURE
+#define XV_CONTRACT_w_hasval_rv __CPROVER_requires(OBJ(x) && OBJ(f)) __CPROVER_ensures(RV == f) PURE
+#define XV_CONTRACT_w_val_lv __CPROVER_requires(OREF(o)) __CPROVER_ensures(RV == o->m_value) PURE
+#define XV_CONTRACT_w_hasval_lv __CPROVER_requires(OREF(o)) __CPROVER_ensures(RV == o->m_flag) PURE
+/* closure pointers: built from an lvalue they point at it; built from an rvalue they own a copy */
+#define XV_CONTRACT_w_cp_lv __CPROVER_requires(OBJ(x)) __CPROVER_ensures(RV == x && *x == __CPROVER_old(*x)) PURE
+#define XV_CONTRACT_w_ccp_lv __CPROVER_requires(OBJ(x)) __CPROVER_ensures(RV == x && *x == __CPROVER_old(*x)) PURE
+#define XV_CONTRACT_w_cp_arrow __CPROVER_requires(OBJ(x)) __CPROVER_ensures(RV == x) PURE
+#define XV_CONTRACT_w_cp_rv_aliases __CPROVER_requires(OBJ(x)) __CPROVER_ensures(RV == 0) PURE
+#define XV_CONTRACT_w_cp_rv_val __CPROVER_requires(OBJ(x)) __CPROVER_ensures(RV == __CPROVER_old(*x)) PURE
